@@ -2,6 +2,7 @@ use std::mem;
 
 use tokio::io::{self, AsyncRead, AsyncReadExt};
 
+use super::read_exact_to_vec;
 use crate::Record;
 
 pub(super) async fn read_record<R>(reader: &mut R, record: &mut Record) -> io::Result<usize>
@@ -16,14 +17,12 @@ where
     let l_indiv = read_samples_length(reader).await?;
 
     let site_buf = record.fields_mut().site_buf_mut();
-    site_buf.resize(l_shared, 0);
-    reader.read_exact(site_buf).await?;
+    read_exact_to_vec(reader, site_buf, l_shared).await?;
 
     record.fields_mut().index()?;
 
     let samples_buf = record.fields_mut().samples_buf_mut();
-    samples_buf.resize(l_indiv, 0);
-    reader.read_exact(samples_buf).await?;
+    read_exact_to_vec(reader, samples_buf, l_indiv).await?;
 
     Ok(l_shared + l_indiv)
 }
